@@ -7,4 +7,5 @@ K3 == {"k1", "k2", "k3"}
 DevNone == {}
 DevLeak == {"FlushFailureKeepsLock"}
 DevStale == {"StaleIndex"}
+DevToctou == {"TestOutsideLock"}
 =============================================================================
